@@ -96,6 +96,7 @@ func main() {
 		}
 		return
 	}
+	checkDisconnect = *prop == "C01" // the disconnect clause belongs to C01; other properties only use the replay for conformance
 	jobs := jobsFor(*prop, *tier)
 	if *list {
 		for i, j := range jobs {
